@@ -8,12 +8,13 @@ for d in $dirs; do
   d=${d%/}; id=$(basename $d)
   [ -f $d/patch.diff ] || continue
   git -C $REPO apply $V/$d/patch.diff || { echo "$id: patch does not apply"; bad=1; continue; }
-  line="$id:"
+  line="$id:"; first=1
   for p in $PROPS; do
+    if [ $first = 1 ]; then unset URISIM_SKIP_BUILD; first=0; else export URISIM_SKIP_BUILD=1; fi   # one build per change
     out=$(./check $p quick --evidence $T/ev --replays $T/rp 2>&1); rc=$?
     if [ $rc = 0 ]; then line="$line $p=ok"; else line="$line $p=EXIT$rc"; bad=1; echo "$out" | grep -E "VIOLATION|  class:|HARNESS" | head -4 | sed "s/^/    [$id $p] /"; fi
   done
-  git -C $REPO checkout -- .
+  git -C $REPO checkout -- .; unset URISIM_SKIP_BUILD
   echo "$line"
 done
 rm -rf $T; exit $bad
